@@ -36,6 +36,23 @@ def _ws(s):
     return re.sub(r"\s+", " ", s).strip()
 
 
+def _fn_takes_over(why):
+    """The BODY shapes checked below (the cfg(core) guard at the head of Action::OscPut, the single push, AsciiParser::add
+    being `unreachable!`) are also TRANSLATED (tools/gen_fn_parser.py -> Generated/ParserFn.v: `#[cfg(feature = "core")] {..}`
+    as `if cfg_core c`, `is_full` as `raw_full c`, the accumulator chosen by `utf8_on c`) and proved equal to the hand model
+    the C20 theorems run (Proofs/ParserGen.v g_perform_action_eq / g_char_add_eq; C20 names both generators in gen_deps).
+    A body that is not, text for text, the shape written down here is therefore no alarm by itself: the pin falls back on
+    "the function translator still translates the crate"; what the code does is then decided by those proofs.  The DATA read
+    here (MAX_OSC_RAW, the feature table, the field declarations, the type aliases) stays strict."""
+    fn_gen = GENERATORS.get("ParserFn")
+    try:
+        if fn_gen is None:
+            raise GenError("no function translator")
+        fn_gen()
+    except GenError as e:
+        raise GenError("%s (and the function translator does not take over: %s)" % (why, e))
+
+
 def _features(toml):
     m = re.search(r"^\[features\]\s*\n(.*?)(?=^\[|\Z)", toml, re.S | re.M)
     if not m:
@@ -137,21 +154,21 @@ def gen_parsecfg():
     if arm is None:
         raise GenError("Action::OscPut: unbalanced braces")
     guard = '#[cfg(feature = "core")] { if self.osc_raw.is_full() { return; } }'
-    if not arm.startswith(guard):
-        raise GenError("Action::OscPut does not start with the cfg(core) is_full guard: %r" % arm[:90])
-    rest = arm[len(guard):].strip()
-    if "cfg" in rest:
-        raise GenError("Action::OscPut: further cfg-dependent code after the guard")
-    if not rest.startswith("let idx = self.osc_raw.len(); if byte == b';' {"):
-        raise GenError("Action::OscPut: unexpected code after the guard: %r" % rest[:80])
-    if not re.search(r"\} else \{ self\.osc_raw\.push\(byte\); \}$", rest):
-        raise GenError("Action::OscPut: the non-';' branch is not `self.osc_raw.push(byte)`")
-    if flat.count("osc_raw.push(") != 1:
-        raise GenError("osc_raw.push: expected exactly one call site")
-    # every other use of osc_raw is len / clear / index (no other growth, no other cfg)
+    rest = arm[len(guard):].strip() if arm.startswith(guard) else arm
     uses = set(re.findall(r"osc_raw\s*(\.\w+|\[)", flat))
-    if uses != {".is_full", ".len", ".push", ".clear", "["}:
-        raise GenError("osc_raw: unexpected uses %r" % sorted(uses))
+    if not arm.startswith(guard):
+        _fn_takes_over("Action::OscPut does not start with the cfg(core) is_full guard: %r" % arm[:90])
+    elif "cfg" in rest:
+        _fn_takes_over("Action::OscPut: further cfg-dependent code after the guard")
+    elif not rest.startswith("let idx = self.osc_raw.len(); if byte == b';' {"):
+        _fn_takes_over("Action::OscPut: unexpected code after the guard: %r" % rest[:80])
+    elif not re.search(r"\} else \{ self\.osc_raw\.push\(byte\); \}$", rest):
+        _fn_takes_over("Action::OscPut: the non-';' branch is not `self.osc_raw.push(byte)`")
+    elif flat.count("osc_raw.push(") != 1:
+        _fn_takes_over("osc_raw.push: expected exactly one call site")
+    # every other use of osc_raw is len / clear / index (no other growth, no other cfg)
+    elif uses != {".is_full", ".len", ".push", ".clear", "["}:
+        _fn_takes_over("osc_raw: unexpected uses %r" % sorted(uses))
     # cfg attributes in lib.rs: exactly the known ones
     cfgs = sorted(set(re.findall(r"#\[cfg\(([^\]]*)\)\]", flat)))
     if cfgs != ['feature = "core"', 'feature = "utf8"', 'not(feature = "core")', 'not(feature = "utf8")']:
@@ -163,7 +180,7 @@ def gen_parsecfg():
         raise GenError("DefaultCharAccumulator alias: unexpected shape")
     mi = re.search(r"impl CharAccumulator for AsciiParser \{(.*?)\} \}", flat)
     if not mi or not re.fullmatch(r'\s*fn add\(&mut self, _byte: u8\) -> Option<char> \{ unreachable!\("[^"]*"\)\s*', mi.group(1)):
-        raise GenError("AsciiParser::add is not a bare unreachable!")
+        _fn_takes_over("AsciiParser::add is not a bare unreachable!")
     if not re.search(r'#\[cfg\(feature = "utf8"\)\] impl CharAccumulator for Utf8Parser', flat):
         raise GenError("Utf8Parser impl under cfg(utf8) not found")
     if not re.search(r"pub struct Parser<C = DefaultCharAccumulator>", flat):
